@@ -73,6 +73,19 @@ def sub_index_maps(ctx):
             except Exception as exc:
                 ctx.violation(f"index:{dim}d:raised:{type(exc).__name__}", f"shape {shape}: {exc}", case)
                 break
+            if flat % 3 == 1:
+                # other integer types of the same numbers (NumPy integers, an integer array, a list) and a Tensor1DGrids
+                try:
+                    alt_c = tuple(int(v) for v in g.index_to_coordinates(np.int64(flat)))
+                    alt_f = {int(g.coordinates_to_index(np.array(coord))), int(g.coordinates_to_index(list(coord))),
+                             int(g.coordinates_to_index(tuple(np.int32(c) for c in coord)))}
+                except Exception as exc:
+                    ctx.violation(f"index:{dim}d:integer-types:raised:{type(exc).__name__}", f"shape {shape}: {exc}", case)
+                    break
+                if alt_c != coord or alt_f != {flat}:
+                    ctx.violation(f"index:{dim}d:integer-types-differ", f"shape {shape}: NumPy-integer index {flat} -> {alt_c}; array / list / "
+                                  f"int32 coordinates {coord} -> {sorted(alt_f)}", case)
+                    break
             if got_c != coord or got_f != flat:
                 ctx.violation(f"index:{dim}d:maps-not-inverse",
                               f"shape {shape}: index {flat} -> {got_c} (expected {coord}); {coord} -> {got_f}", case)
@@ -88,6 +101,23 @@ def sub_index_maps(ctx):
         except ValueError:
             pass
         assert total == g.size
+    # the same maps on tensor-product grids of unequal sizes (2-D and 3-D)
+    from grid.cubic import Tensor1DGrids
+    from grid.onedgrid import GaussLegendre
+
+    for shape in ((2, 3, 4), (4, 2, 3), (3, 5), (5, 2)):
+        g = Tensor1DGrids(*[GaussLegendre(k) for k in shape])
+        strides = [int(np.prod(shape[k + 1:])) for k in range(len(shape))]
+        ok = True
+        for flat, coord in enumerate(itertools.product(*[range(k) for k in shape])):
+            ctx.count(2, section="index-maps")
+            if tuple(int(v) for v in g.index_to_coordinates(flat)) != coord or int(g.coordinates_to_index(coord)) != flat:
+                ok = False
+                ctx.violation(f"index:tensor:{len(shape)}d:maps-not-inverse", f"Tensor1DGrids shape {shape}: index {flat} <-> {coord}",
+                              {"sub": "index", "shape": list(shape), "tensor": True})
+                break
+        if ok:
+            ctx.nontrivial(("index-tensor", shape), section="index-maps")
 
 
 # ------------------------------------------------------------------------------ 2 layout
